@@ -4,7 +4,8 @@
     tools/recheck_seeds.py [ID ...]"""
 import glob, json, os, shutil, subprocess, sys, tempfile
 ROOT = "/verif"
-ids = sys.argv[1:]
+own_only = "--own" in sys.argv  # only the seed's own property check (the other recorded verdicts are kept)
+ids = [a for a in sys.argv[1:] if not a.startswith("--")]
 for d in sorted(glob.glob(os.path.join(ROOT, "seeded", "*"))):
     m = json.load(open(os.path.join(d, "meta.json")))
     if ids and m["id"] not in ids:
@@ -16,8 +17,8 @@ for d in sorted(glob.glob(os.path.join(ROOT, "seeded", "*"))):
         if r.returncode != 0:
             print(m["id"], "PATCH DOES NOT APPLY", r.stdout[-200:])
             continue
-        checks = sorted(set(list(m.get("checks_quick", {}).keys()) + [m["property"]]))
-        out = {}
+        checks = [m["property"]] if own_only else sorted(set(list(m.get("checks_quick", {}).keys()) + [m["property"]]))
+        out = dict(m.get("checks_quick", {})) if own_only else {}
         for c in checks:
             r = subprocess.run(["/venv/bin/python", "-m", "btmc.check", c, "--tier", "quick"], cwd=ROOT, env=dict(os.environ, BTMC_SRC=tmp), capture_output=True, text=True)
             summ = [ln for ln in r.stdout.splitlines() if "violation(s)" in ln]
